@@ -132,24 +132,61 @@ def m_line(P, G) -> str:
 # ----------------------------------------------------------------------------------------------
 # the implementation
 # ----------------------------------------------------------------------------------------------
-def build(atoms, bonds, kind="connectivity"):
+KINDS = ["connectivity", "structure", "molecule", "ensemble", "conformer", "substructure"]
+DESIGNATORS = ["obj", "idx", "neg", "label", "element"]
+
+
+def build(atoms, bonds, kind="connectivity", rng=None):
+    """the graph as a live object of one of the classes that carry the Connectivity queries.  Atom i has the unique
+    label `a<i>`.  `substructure`: a Substructure of a larger, differently numbered parent Structure whose atoms and
+    bonds restricted to the chosen atoms are exactly this graph."""
     from molli.chem import Atom, Bond, BondStereo, BondType, AtomStereo, Connectivity, Element
 
+    def mk_atoms():
+        return [Atom(Element(z), isotope=iso, stereo=AtomStereo(st), label=f"a{i}") for i, (z, iso, st) in enumerate(atoms)]
+
+    def mk_bond(A, a1, a2, bt, st, lab, fo):
+        return Bond(A[a1], A[a2], btype=BondType(bt), stereo=BondStereo(st), label=lab, f_order=float(fo))
+
+    if kind == "substructure" and atoms:
+        from molli.chem import Structure, Substructure
+        A = mk_atoms()
+        extra = Atom("Xe", label="extra")
+        order = list(range(len(A))) + [-1]
+        if rng is not None:
+            rng.shuffle(order)
+        parent = Connectivity()
+        for k in order:
+            parent.append_atom(extra if k == -1 else A[k])
+        blist = [mk_bond(A, *b) for b in bonds]
+        pos = rng.below(len(blist) + 1) if rng is not None else 0
+        blist.insert(pos, Bond(extra, A[rng.below(len(A)) if rng is not None else 0]))
+        for b in blist:
+            parent.append_bond(b)
+        ps = Structure(parent)
+        # atoms of the copy, addressed in the original numbering through their labels
+        return Substructure(ps, [f"a{i}" for i in range(len(A))])
     c = Connectivity()
-    A = []
-    for z, iso, st in atoms:
-        a = Atom(Element(z), isotope=iso, stereo=AtomStereo(st))
+    A = mk_atoms()
+    for a in A:
         c.append_atom(a)
-        A.append(a)
-    for a1, a2, bt, st, lab, fo in bonds:
-        c.append_bond(Bond(A[a1], A[a2], btype=BondType(bt), stereo=BondStereo(st), label=lab, f_order=float(fo)))
+    for b in bonds:
+        c.append_bond(mk_bond(A, *b))
+    if not atoms or kind == "connectivity":
+        return c
+    if kind == "structure" or kind == "substructure":
+        from molli.chem import Structure
+        return Structure(c)
     if kind == "molecule":
         from molli.chem import Molecule
-        c = Molecule(c)
-    elif kind == "ensemble":
+        return Molecule(c)
+    if kind == "ensemble":
         from molli.chem import ConformerEnsemble
-        c = ConformerEnsemble(c, n_conformers=1)
-    return c
+        return ConformerEnsemble(c, n_conformers=2)
+    if kind == "conformer":
+        from molli.chem import ConformerEnsemble
+        return ConformerEnsemble(c, n_conformers=2)[1]
+    raise ValueError(kind)
 
 
 def labs(pairs):
@@ -160,32 +197,70 @@ def nats(xs):
     return "-" if not xs else ",".join(str(x) for x in xs)
 
 
-def impl_query(c, n, bonds):
-    """everything the driver's `q` request computes, from the real object; returns (line, raw observations)"""
+class Spelling:
+    """how an atom is handed to the API (AtomLike): the Atom object, its index, its negative index, its (unique)
+    label, or its Element when it is the first atom of that element"""
+
+    def __init__(self, c, policy, rng):
+        self.c, self.policy, self.rng = c, policy, rng
+        self.n = len(c.atoms)
+        first = {}
+        for i, a in enumerate(c.atoms):
+            first.setdefault(a.element, i)
+        self.first_of_element = first
+        self.used = {}
+
+    def __call__(self, i):
+        kind = self.policy if self.policy in DESIGNATORS else self.rng.choice(DESIGNATORS)
+        a = self.c.atoms[i]
+        if kind == "element" and self.first_of_element.get(a.element) != i:
+            kind = "idx"
+        self.used[kind] = self.used.get(kind, 0) + 1
+        if kind == "obj":
+            return a
+        if kind == "idx":
+            return i
+        if kind == "neg":
+            return i - self.n
+        if kind == "label":
+            return a.label
+        return a.element
+
+
+def impl_query(c, n, bonds, policy="obj", rng=None):
+    """everything the driver's `q` request computes, from the real object, every atom argument spelled according to
+    `policy` (one designator kind, or `mixed` = drawn per argument); returns (line, raw observations)"""
+    from molli.chem import Bond
+
     idx = {id(a): i for i, a in enumerate(c.atoms)}
     bidx = {id(b): i for i, b in enumerate(c.bonds)}
-    obs = {"bfs": [], "bfs_nolabel": [], "dir": [], "ring": [], "nb": [], "bw": [], "val": [], "deg": []}
+    sp = Spelling(c, policy, rng)
+    obs = {"bfs": [], "bfs_nolabel": [], "dir": [], "ring": [], "ringr": [], "nb": [], "bw": [], "val": [], "deg": []}
     for s in range(n):
-        r = [(idx[id(a)], d) for a, d in c.yield_bfsd(s)]
+        r = [(idx[id(a)], d) for a, d in c.yield_bfsd(sp(s))]
         obs["bfs"].append(r)
-        obs["bfs_nolabel"].append([idx[id(a)] for a in c.yield_bfs(s)])
+        obs["bfs_nolabel"].append([idx[id(a)] for a in c.yield_bfs(sp(s))])
     for b in c.bonds:
-        for s, d in ((b.a1, b.a2), (b.a2, b.a1)):
+        for s, d in ((idx[id(b.a1)], idx[id(b.a2)]), (idx[id(b.a2)], idx[id(b.a1)])):
             try:
-                r = [(idx[id(a)], k) for a, k in c.yield_bfsd(s, d)]
-                r2 = [idx[id(a)] for a in c.yield_bfs(s, d)]
+                r = [(idx[id(a)], k) for a, k in c.yield_bfsd(sp(s), sp(d))]
+                r2 = [idx[id(a)] for a in c.yield_bfs(sp(s), sp(d))]
             except AssertionError:
                 r, r2 = "err", "err"
             obs["dir"].append((r, r2))
         obs["ring"].append(bool(c.is_bond_in_ring(b)))
+        # a bond object that is not the stored one, with the ends the other way round
+        obs["ringr"].append(bool(c.is_bond_in_ring(Bond(b.a2, b.a1, btype=b.btype))))
     for u in range(n):
-        obs["nb"].append([idx[id(a)] for a in c.connected_atoms(u)])
-        obs["bw"].append([bidx[id(b)] for b in c.bonds_with_atom(u)])
-        obs["val"].append(Fraction(float(c.bonded_valence(u))))
-        obs["deg"].append(c.n_bonds_with_atom(u))
+        obs["nb"].append([idx[id(a)] for a in c.connected_atoms(sp(u))])
+        obs["bw"].append([bidx[id(b)] for b in c.bonds_with_atom(sp(u))])
+        obs["val"].append(Fraction(float(c.bonded_valence(sp(u)))))
+        obs["deg"].append(c.n_bonds_with_atom(sp(u)))
+    obs["spellings"] = sp.used
     line = ("bfs=" + ";".join(labs(r) for r in obs["bfs"]) +
             " dir=" + ";".join("err" if r == "err" else labs(r) for r, _ in obs["dir"]) +
             " ring=" + "".join("1" if x else "0" for x in obs["ring"]) +
+            " ringr=" + "".join("1" if x else "0" for x in obs["ringr"]) +
             " nb=" + ";".join(nats(x) for x in obs["nb"]) +
             " bw=" + ";".join(nats(x) for x in obs["bw"]) +
             " val=" + ";".join(frac_s(x) for x in obs["val"]))
@@ -285,6 +360,9 @@ def oracle_query(ctx, n, bonds, obs, tag, simple):
             if obs["ring"][bi] != not_bridge:
                 ctx.violation("C15:ring-vs-bridge",
                               f"is_bond_in_ring(bond {b[0]}-{b[1]}) = {obs['ring'][bi]} but the bond is {'not ' if not_bridge else ''}a bridge", {**tag, "bond": bi})
+            if obs["ringr"][bi] != not_bridge:
+                ctx.violation("C15:ring-vs-bridge",
+                              f"is_bond_in_ring(Bond({b[1]}, {b[0]})) = {obs['ringr'][bi]} but the bond is {'not ' if not_bridge else ''}a bridge", {**tag, "bond": bi, "reversed": True})
     # ---- neighbours, incident bonds, valence ----
     for u in range(n):
         inc = [i for i, b in enumerate(bonds) if u in (b[0], b[1])]
@@ -474,6 +552,8 @@ def is_simple(bonds):
 
 
 class Batch:
+    """collects (request, implementation answer) pairs; identical requests are sent to the model once"""
+
     def __init__(self, ctx):
         self.ctx = ctx
         self.items = []
@@ -484,49 +564,72 @@ class Batch:
     def flush(self):
         if not self.items:
             return
-        outs = self.ctx.driver([x[0] for x in self.items])
-        for (line, impl_line, tag), mout in zip(self.items, outs):
+        uniq = list(dict.fromkeys(x[0] for x in self.items))
+        outs = dict(zip(uniq, self.ctx.driver(uniq)))
+        for line, impl_line, tag in self.items:
+            mout = outs[line]
             if mout != impl_line:
                 self.ctx.disagree("graph query results differ" if line.startswith("q ") else "match sets differ", tag, impl_line, mout)
         self.items = []
 
 
-def one_graph(ctx, batch, rng, atoms, bonds, kind, origin, do_match=True):
+def one_graph(ctx, batch, rng, atoms, bonds, kind, origin, do_match=True, policies=("obj", "idx", "mixed")):
     n = len(atoms)
     simple = is_simple(bonds)
     gj = graph_json(atoms, bonds)
-    tag = {"op": "q", "graph": gj, "kind": kind}
-    c = build(atoms, bonds, kind)
-    impl_line, obs = impl_query(c, n, bonds)
+    c = build(atoms, bonds, kind, rng)
     line = q_line(n, bonds)
     ctx.case(line, nontrivial=len(bonds) > 0)
     ctx.count(f"{origin}:graphs")
+    ctx.count(f"class:{type(c).__name__}")
     ctx.count(f"atoms={n}" if n <= 8 else f"atoms={(n // 8) * 8}+")
-    ctx.count("has-ring-bond" if any(obs["ring"]) else "acyclic")
     if not simple:
         ctx.count("multigraph")
-    batch.add(line, impl_line, tag)
-    oracle_query(ctx, n, bonds, obs, tag, simple)
-    if do_match and simple:
+    obs = None
+    for policy in policies:
+        tag = {"op": "q", "graph": gj, "kind": kind, "designators": policy}
+        impl_line, obs = impl_query(c, n, bonds, policy, rng)
+        for k, v in obs["spellings"].items():
+            ctx.count(f"designator:{k}", v)
+        batch.add(line, impl_line, tag)
+        oracle_query(ctx, n, bonds, obs, tag, simple)
+    ctx.count("has-ring-bond" if any(obs["ring"]) else "acyclic")
+    if do_match and simple and n:
         P = make_pattern(rng, (atoms, bonds))
-        run_match(ctx, batch, (atoms, bonds), P, c, origin)
+        run_match(ctx, batch, rng, (atoms, bonds), P, origin)
     return obs
 
 
-def run_match(ctx, batch, G, P, cG, origin):
-    tag = {"op": "m", "graph": graph_json(*G), "pattern": graph_json(*P)}
-    cP = build(P[0], P[1])
+def prefix_disconnected(P):
+    """some prefix of the pattern's atom list is not connected although the pattern is (numbering not along the bonds)"""
+    pa, pb = P
+    for k in range(2, len(pa) + 1):
+        adj = adjacency(k, [b for b in pb if b[0] < k and b[1] < k])
+        if len(distances(adj, 0)) != k:
+            full = adjacency(len(pa), pb)
+            return len(distances(full, 0)) == len(pa)
+    return False
+
+
+def run_match(ctx, batch, rng, G, P, origin, host_kind=None, pattern_kind=None):
+    host_kind = host_kind or rng.choice(KINDS)
+    pattern_kind = pattern_kind or rng.choice(["connectivity", "connectivity", "structure", "molecule", "ensemble"])
+    tag = {"op": "m", "graph": graph_json(*G), "pattern": graph_json(*P), "kind": host_kind, "pattern_kind": pattern_kind}
+    cG = build(G[0], G[1], host_kind, rng)
+    cP = build(P[0], P[1], pattern_kind, rng)
     got, got2 = impl_match(cG, cP)
     if got != got2:
-        ctx.violation("C15:match-vs-get_substr_indices", f"match() gives {got2[:4]}, get_substr_indices {got[:4]}", tag)
+        ctx.violation("C15:match-vs-get_substr_indices", f"{type(cG).__name__}: match() gives {got2[:4]}, get_substr_indices {got[:4]}", tag)
     line = m_line(P, G)
-    ctx.case(line, nontrivial=len(P[0]) >= 2 or bool(got))
+    ctx.case(line + "@" + host_kind, nontrivial=len(P[0]) >= 2 or bool(got))
     ctx.count(f"{origin}:matches")
+    ctx.count(f"match-host:{type(cG).__name__}")
     ctx.count(f"pattern-atoms={len(P[0])}")
     ctx.count("pattern-plain" if pattern_is_plain(P) else "pattern-with-bond-types/isotopes/stereo")
+    ctx.count("pattern-numbering:prefix-disconnected" if prefix_disconnected(P) else "pattern-numbering:along-bonds")
     ctx.count("match-nonempty" if got else "match-empty")
     impl_line = "-" if not got else "|".join(".".join(str(x) for x in phi) for phi in got)
-    batch.items.append((line, impl_line, tag))
+    batch.add(line, impl_line, tag)
     oracle_match(ctx, P, G, got, tag)
 
 
@@ -537,10 +640,15 @@ def sort_model_embeddings(s):
 
 
 def run(ctx):
-    ctx.rule = ("q-cases: one labelled graph (bond-list order, bond orientation, bond types, elements drawn at random) with EVERY "
-                "start atom, EVERY bond in both directions, every ring flag, every atom's neighbours / incident bonds / valence; "
+    ctx.rule = ("q-cases: one labelled graph (bond-list order, bond orientation, bond types, elements drawn at random) as an object of "
+                "one of the six classes carrying the queries (Connectivity, Structure, Molecule, ConformerEnsemble, Conformer, "
+                "Substructure of a larger renumbered parent) with EVERY start atom, EVERY bond in both directions, every ring flag "
+                "(stored bond and a fresh bond object with swapped ends), every atom's neighbours / incident bonds / valence, each "
+                "asked three times: all atom arguments as Atom objects, all as integer indices, and with a designator kind drawn "
+                "per argument (object, index, negative index, unique label, Element of the first atom of its element); "
                 "non-trivial = at least one bond. m-cases: graph + pattern (random connected induced subgraph with elements "
-                "blanked to Unknown, bond types altered, an edge dropped, or a free-standing pattern); non-trivial = pattern of "
+                "blanked to Unknown, bond types altered, an edge dropped, or a free-standing pattern; pattern atoms numbered by a random "
+                "permutation; host class drawn from the six, pattern class from four); non-trivial = pattern of "
                 "≥ 2 atoms or a non-empty match set. Distinct by the canonical request line.")
     ctx.assumptions += [
         "A-nx: networkx' VF2 is not verified; its match sets are compared with the proven enumerator on every run",
@@ -566,12 +674,14 @@ def run(ctx):
         for f in sorted(cdir.glob("*.json")):
             j = json.loads(f.read_text())
             atoms, bonds = graph_from_json(j["graph"])
-            c = None
             if j.get("op") == "m":
                 P = graph_from_json(j["pattern"])
-                run_match(ctx, batch, (atoms, bonds), P, build(atoms, bonds), "corpus")
+                for hk in KINDS:
+                    run_match(ctx, batch, rng, (atoms, bonds), P, "corpus", host_kind=hk)
             else:
-                one_graph(ctx, batch, rng, atoms, bonds, j.get("kind", "connectivity"), "corpus", do_match=False)
+                for kd in ([j["kind"]] if "kind" in j else KINDS):
+                    one_graph(ctx, batch, rng, atoms, bonds, kd, "corpus", do_match=False,
+                              policies=DESIGNATORS + ["mixed"])
 
     # ---- exhaustive: all labelled graphs ----
     nmax = 5 if ctx.quick() else 6
@@ -579,7 +689,7 @@ def run(ctx):
         for pairs in all_graphs(n):
             ctx.check_deadline()
             atoms, bonds = decorate(rng, n, pairs)
-            kind = "connectivity" if not rng.chance(1, 8) else rng.choice(["molecule", "ensemble"])
+            kind = rng.choice(KINDS)
             one_graph(ctx, batch, rng, atoms, bonds, kind, "exhaustive", do_match=(n >= 1 and (n <= 4 or rng.chance(1, 4 if n == 5 else 16))))
             if len(batch.items) >= 4000:
                 batch.flush()
@@ -602,13 +712,12 @@ def run(ctx):
             else:
                 v = rng.below(n)
                 bonds.append((v, v) + rand_bond_attrs(rng))
-        kind = "connectivity" if not rng.chance(1, 6) else rng.choice(["molecule", "ensemble"])
+        kind = rng.choice(KINDS)
         c_obs = one_graph(ctx, batch, rng, atoms, bonds, kind, "random", do_match=False)
         if is_simple(bonds):
-            cG = build(atoms, bonds)
-            for _ in range(2 if ctx.quick() else 3):
+            for _ in range(3 if ctx.quick() else 4):
                 P = make_pattern(rng, (atoms, bonds))
-                run_match(ctx, batch, (atoms, bonds), P, cG, "random")
+                run_match(ctx, batch, rng, (atoms, bonds), P, "random")
         if k < 2:
             ctx.sample({"request": q_line(n, bonds)[:400], "impl_bfs_from_0": c_obs["bfs"][0][:12] if n else []})
         if len(batch.items) >= 1500:
@@ -624,15 +733,16 @@ def replay(ctx, path):
     if "graph" not in r:
         return 0
     atoms, bonds = graph_from_json(r["graph"])
-    c = build(atoms, bonds, r.get("kind", "connectivity"))
+    c = build(atoms, bonds, r.get("kind", "connectivity"), ctx.rng)
     if r.get("op") == "m":
         P = graph_from_json(r["pattern"])
-        got, _ = impl_match(c, build(*P))
+        got, _ = impl_match(c, build(P[0], P[1], r.get("pattern_kind", "connectivity"), ctx.rng))
+        print("host class:", type(c).__name__)
         print("implementation get_substr_indices:", got)
         print("induced embeddings (oracle):      ", induced_embeddings(P, (atoms, bonds), node_ok_refined, edge_ok_refined))
         print("model:", ctx.driver([m_line(P, (atoms, bonds))]))
     else:
-        line, obs = impl_query(c, len(atoms), bonds)
-        print("implementation:", line)
+        line, obs = impl_query(c, len(atoms), bonds, r.get("designators", "obj"), ctx.rng)
+        print(f"implementation ({type(c).__name__}, atom arguments spelled: {r.get('designators', 'obj')}):", line)
         print("model:         ", ctx.driver([q_line(len(atoms), bonds)])[0])
     return 0
